@@ -104,13 +104,32 @@ theorem rowDict_self (p : Upd) (h : (p.map (·.1)).Nodup) : rowDict (p.map (·.1
       simpa using this
     simp [List.lookup, hne]
 
+theorem cumRows_map (T : Rat) (steps : List PStep) (f : Upd → Upd) :
+    (cumRows T steps).map (fun r => (r.1, f r.2)) = cumRows T (steps.map fun s => (s.1, f s.2)) := by
+  induction steps generalizing T with
+  | nil => rfl
+  | cons s rest ih => obtain ⟨d, p⟩ := s; simp [cumRows, ih]
+
+theorem normSteps_pos (steps : List PStep) (hpos : steps.all (fun s => decide (0 < s.1)) = true) :
+    (normSteps steps).all (fun s => decide (0 < s.1)) = true := by
+  simpa [normSteps, List.all_map, Function.comp_def] using hpos
+
+theorem normSteps_isEmpty (steps : List PStep) : (normSteps steps).isEmpty = steps.isEmpty := by
+  cases steps <;> simp [normSteps]
+
+/-- with positive durations `make_protocol` is the table of cumulative end times; row `i` holds step `i`'s values
+    in column order (`normSteps`): no row is lost, merged or reordered -/
 theorem makeProtocol_wf (steps : List PStep) (hwf : wfSteps steps = true) :
-    makeProtocol steps = cumRows 0 steps := by
-  simp only [wfSteps, Bool.and_eq_true] at hwf
-  obtain ⟨hpos, huni⟩ := hwf
-  unfold makeProtocol
+    makeProtocol steps = cumRows 0 (normSteps steps) := by
+  have hpos : steps.all (fun s => decide (0 < s.1)) = true := hwf
+  unfold makeProtocol normSteps
   simp only
-  rw [makeRows_pos 0 [] steps hpos (by simp), List.nil_append, cumRows_pars]
+  rw [makeRows_pos 0 [] steps hpos (by simp), List.nil_append, cumRows_pars, cumRows_map]
+
+/-- the documented form — every step names the same distinct parameters in the same order — is a fixed point of
+    the table's normalisation: each row is the step's own dict -/
+theorem normSteps_uniform (steps : List PStep) (huni : uniform steps = true) : normSteps steps = steps := by
+  unfold normSteps
   cases steps with
   | nil => rfl
   | cons s rest =>
@@ -127,21 +146,64 @@ theorem makeProtocol_wf (steps : List PStep) (hwf : wfSteps steps = true) :
       have : (p.map (·.1)).filter (fun k => !([] : List Name).contains k) = p.map (·.1) := by simp
       rw [this]
       exact columns_same _ _ (fun q hq => hall q (List.mem_cons_of_mem _ hq))
+    simp only
     rw [hcols]
-    have hrows : ∀ r ∈ cumRows 0 ((d, p) :: rest), rowDict (p.map (·.1)) r.2 = r.2 := by
-      intro r hr
-      have hm : r.2 ∈ (cumRows 0 ((d, p) :: rest)).map (·.2) := List.mem_map_of_mem hr
-      rw [cumRows_pars] at hm
-      have hk := hall r.2 hm
-      rw [← hk]
-      exact rowDict_self r.2 (by rw [hk]; exact huni.1)
-    have : (cumRows 0 ((d, p) :: rest)).map (fun r => (r.1, rowDict (p.map (·.1)) r.2))
-        = (cumRows 0 ((d, p) :: rest)).map id := by
+    have : ((d, p) :: rest).map (fun s => (s.1, rowDict (p.map (·.1)) s.2)) = ((d, p) :: rest).map id := by
       apply List.map_congr_left
       intro r hr
+      have hk := hall r.2 (List.mem_map_of_mem hr)
       simp only [id]
-      rw [hrows r hr]
+      rw [← hk, rowDict_self r.2 (by rw [hk]; exact huni.1)]
     rw [this, List.map_id]
+
+theorem rowDict_lookup (cols : List Name) (p : Upd) (k : Name) :
+    (rowDict cols p).lookup k = if cols.contains k then p.lookup k else none := by
+  unfold rowDict
+  induction cols with
+  | nil => simp
+  | cons c rest ih =>
+    simp only [List.filterMap_cons]
+    cases hc : p.lookup c with
+    | none =>
+      simp only [Option.map_none, ih, List.contains_cons]
+      by_cases hkc : k = c
+      · subst hkc; simp [hc]
+      · have : (k == c) = false := by simpa using hkc
+        simp [this]
+    | some v =>
+      simp only [Option.map_some, List.lookup_cons, List.contains_cons]
+      by_cases hkc : k = c
+      · subst hkc; simp [hc]
+      · have : (k == c) = false := by simpa using hkc
+        simp only [this, Bool.false_or]
+        exact ih
+
+theorem columns_acc_sub (acc : List Name) (ps : List Upd) (k : Name) (hk : k ∈ acc) : k ∈ columns acc ps := by
+  induction ps generalizing acc with
+  | nil => exact hk
+  | cons p rest ih => exact ih _ (List.mem_append_left _ hk)
+
+theorem columns_mem (acc : List Name) (ps : List Upd) (p : Upd) (hp : p ∈ ps) (k : Name)
+    (hk : k ∈ p.map (·.1)) : k ∈ columns acc ps := by
+  induction ps generalizing acc with
+  | nil => cases hp
+  | cons q rest ih =>
+    simp only [columns]
+    rcases List.mem_cons.mp hp with rfl | h
+    · apply columns_acc_sub
+      by_cases hin : k ∈ acc
+      · exact List.mem_append_left _ hin
+      · apply List.mem_append_right
+        simp only [List.mem_filter, Bool.not_eq_eq_eq_not, Bool.not_true]
+        exact ⟨hk, by simpa using hin⟩
+    · exact ih _ h
+
+theorem columns_complete (steps : List PStep) (s : PStep) (hs : s ∈ steps) (k : Name)
+    (hk : k ∈ s.2.map (·.1)) : (columns [] (steps.map (·.2))).contains k = true := by
+  simp only [List.contains_iff_mem]
+  exact columns_mem [] _ s.2 (List.mem_map_of_mem hs) k hk
+
+theorem gen_protocolSkipsUnnamed : Gen.protocolSkipsUnnamed = true ∧ Gen.protocolTCSkipsUnnamed = true := ⟨rfl, rfl⟩
 
 /-! ### the protocol loops are explicit calls -/
 
@@ -487,50 +549,59 @@ theorem ptcLoop_eq {σ} (S : Sys σ) (pts idx : List Rat) (hnd : idx.Nodup) :
 
 theorem simulateProtocol_eq {σ} (S : Sys σ) (s : Sim σ) (steps : List PStep) (n : Nat) (T : Rat)
     (hwf : wfSteps steps = true) (he : s.errors = 0) (hT : reached? s.segs = .ok T) :
-    simulateProtocol S s (makeProtocol steps) n = runStop S s (expandProtocol T n steps) := by
+    simulateProtocol S s (makeProtocol steps) n = runStop S s (expandProtocol T n (normSteps steps)) := by
   unfold simulateProtocol
   simp only [he, Nat.lt_irrefl, if_false, gt_iff_lt, hT, makeProtocol_wf steps hwf]
-  rw [protoLoop_eq S T n steps 0 s he]
+  rw [protoLoop_eq S T n (normSteps steps) 0 s he]
   have : T + 0 = T := by grind
   rw [this]
+
+theorem cumRows_isEmpty (T : Rat) (steps : List PStep) : (cumRows T steps).isEmpty = steps.isEmpty := by
+  cases steps with
+  | nil => rfl
+  | cons s rest => obtain ⟨d, p⟩ := s; rfl
 
 theorem simulateProtocolTC_eq {σ} (S : Sys σ) (s : Sim σ) (steps : List PStep) (pts : List Rat)
     (rel : Bool) (T : Rat) (hwf : wfSteps steps = true) (he : s.errors = 0)
     (hT : reached? s.segs = .ok T) :
     simulateProtocolTC S s (makeProtocol steps) pts rel =
-      (match (if rel then pts.map (· + T) else pts).getLast? with
+      (if steps.isEmpty then (s, some .typeError) else
+       match (if rel then pts.map (· + T) else pts).getLast? with
        | none => (s, some .indexError)
        | some last =>
          if last ≤ T then (s, some .valueError) else
-         if steps.isEmpty then (s, some .indexError) else
-         runStop S s (expandProtocolTC (if rel then pts.map (· + T) else pts) T steps)) := by
-  have hpos : steps.all (fun s => decide (0 < s.1)) = true := by
-    simp only [wfSteps, Bool.and_eq_true] at hwf; exact hwf.1
+         runStop S s (expandProtocolTC (if rel then pts.map (· + T) else pts) T (normSteps steps))) := by
+  have hpos : (normSteps steps).all (fun s => decide (0 < s.1)) = true := normSteps_pos steps hwf
   unfold simulateProtocolTC
   simp only [he, Nat.lt_irrefl, if_false, gt_iff_lt, hT, makeProtocol_wf steps hwf, gen_protocolTCRefusal,
-    decide_eq_true_eq]
-  have hshift : (cumRows 0 steps).map (fun r => (r.1 + T, r.2)) = cumRows T steps := by
-    rw [cumRows_shift]
-    have : (0 : Rat) + T = T := by grind
-    rw [this]
-  rw [hshift]
-  cases (if rel then pts.map (· + T) else pts).getLast? with
-  | none => rfl
-  | some last =>
-    simp only
-    split
-    · rfl
-    · cases steps with
-      | nil => simp [cumRows]
-      | cons st rest =>
-        have hne : (cumRows T (st :: rest)).getLast? ≠ none := by
-          obtain ⟨d, p⟩ := st
-          simp [cumRows]
-        cases hgl : (cumRows T (st :: rest)).getLast? with
-        | none => exact absurd hgl hne
-        | some r =>
-          simp only [List.isEmpty_cons, Bool.false_eq_true, if_false]
-          exact ptcLoop_eq S _ _ ((cumRows_pairwise T (st :: rest) hpos).imp (by intro a b hab; grind))
-            (st :: rest) T s [] he hpos (by simp) (by intro b hb; simp at hb)
+    decide_eq_true_eq, cumRows_isEmpty, normSteps_isEmpty]
+  split
+  · rfl
+  · rename_i hemp
+    have hshift : (cumRows 0 (normSteps steps)).map (fun r => (r.1 + T, r.2)) = cumRows T (normSteps steps) := by
+      rw [cumRows_shift]
+      have : (0 : Rat) + T = T := by grind
+      rw [this]
+    rw [hshift]
+    cases (if rel then pts.map (· + T) else pts).getLast? with
+    | none => rfl
+    | some last =>
+      simp only
+      split
+      · rfl
+      · have hemp' : (normSteps steps).isEmpty = false := by rw [normSteps_isEmpty]; simpa using hemp
+        generalize normSteps steps = ns at hpos hemp'
+        cases ns with
+        | nil => simp at hemp'
+        | cons st rest =>
+          have hne : (cumRows T (st :: rest)).getLast? ≠ none := by
+            obtain ⟨d, p⟩ := st
+            simp [cumRows]
+          cases hgl : (cumRows T (st :: rest)).getLast? with
+          | none => exact absurd hgl hne
+          | some r =>
+            simp only
+            exact ptcLoop_eq S _ _ ((cumRows_pairwise T (st :: rest) hpos).imp (by intro a b hab; grind))
+              (st :: rest) T s [] he hpos (by simp) (by intro b hb; simp at hb)
 
 end Mxl.C14
